@@ -456,7 +456,19 @@ func (ex *Ex) assignPhis(fr *Frame, st *State, b, prev *ssa.BasicBlock) {
 	}
 }
 
+// innermostLoop: the smallest loop whose body contains b (nil outside loops).
+func (fr *Frame) innermostLoop(b *ssa.BasicBlock) *loopInfo {
+	var best *loopInfo
+	for _, li := range fr.Loops {
+		if li.Blocks[b] && (best == nil || len(li.Blocks) < len(best.Blocks)) {
+			best = li
+		}
+	}
+	return best
+}
+
 func (ex *Ex) execFrom(fr *Frame, st *State, b *ssa.BasicBlock, i int) {
+	fr.CurLoop = fr.innermostLoop(b)
 	for ; i < len(b.Instrs); i++ {
 		st.steps++
 		if st.steps > 20000 {
